@@ -30,10 +30,11 @@ type Hints struct {
 	Timeout  int
 	Fuel     int
 	InstDepth int
+	TrigDepth int
 }
 
 func (h *Hints) clone() *Hints {
-	n := &Hints{Reveal: map[string]bool{}, NoUnfold: h.NoUnfold, Timeout: h.Timeout, Fuel: h.Fuel, InstDepth: h.InstDepth}
+	n := &Hints{Reveal: map[string]bool{}, NoUnfold: h.NoUnfold, Timeout: h.Timeout, Fuel: h.Fuel, InstDepth: h.InstDepth, TrigDepth: h.TrigDepth}
 	for k := range h.Reveal {
 		n.Reveal[k] = true
 	}
@@ -304,6 +305,10 @@ func (x *Exec) val(st *State, v ssa.Value) Value {
 	case *ssa.Const:
 		ty := tyFromGo(c.Type())
 		if c.Value == nil {
+			if _, isPtr := c.Type().Underlying().(*types.Pointer); isPtr && ty.K == TOpaque {
+				// nil of a raw pointer type (only compared against pointers made from uintptr)
+				return VScalar{BVInt(0, 64), intTy(64, false)}
+			}
 			return zeroValue(ty)
 		}
 		switch ty.K {
@@ -858,6 +863,9 @@ func (x *Exec) convert(st *State, i *ssa.Convert) Value {
 			if sv, ok := st.cells[pc.A].(VSlice); ok && sv.Ty.IsStr {
 				return PStrHdr{sv}
 			}
+		}
+		if s, ok := v.(VScalar); ok && s.Ty.K == TInt {
+			return s // a raw pointer made from a uintptr: only its nil-ness is observable
 		}
 		return VOpaque{to, "unsafe conversion"}
 	}
